@@ -61,20 +61,23 @@ Real(u, vp) == UCfg[u].base \o vp
 -----------------------------------------------------------------------------
 (* Session records *)
 
-NoH == [v |-> "", a |-> NoArg, x |-> "", n |-> 0, pc |-> "", port |-> 0, prio |-> 0, viewed |-> {}, failed |-> FALSE]
+\* c0: the working directory at the instant the command line was read (where its path conditions are evaluated)
+NoH == [v |-> "", a |-> NoArg, x |-> "", n |-> 0, pc |-> "", port |-> 0, prio |-> 0, viewed |-> {}, failed |-> FALSE, c0 |-> <<>>]
 NoW == [v |-> "", p |-> NoPath, st |-> "", off |-> 0, sock |-> FALSE, fopen |-> FALSE, fdone |-> FALSE,
         seeked |-> FALSE, pos |-> 0, dl |-> 0, listed |-> FALSE, had |-> FALSE, ub |-> ""]
 
 InitSess == [ph |-> "idle", ceof |-> FALSE, user |-> "", logged |-> FALSE, acq |-> FALSE,
              cwd |-> <<>>, rnfr |-> NoPath, rest |-> 0, ttype |-> "", lsn |-> 0, dc |-> "none", xd |-> 0,
              h |-> NoH, w |-> NoW, outq |-> <<>>, line |-> 0, din |-> <<>>, dineof |-> FALSE,
-             crash |-> FALSE, cdata |-> FALSE, ab |-> ""]
+             crash |-> FALSE, cdata |-> FALSE, ab |-> "", h2 |-> NoH]
 
 TransferVerbs == {"retr", "stor", "appe"}
 ListVerbs == {"list", "mlsd"}
 WorkerVerbs == TransferVerbs \cup ListVerbs
 KnownVerbs == {"abor", "appe", "cdup", "cwd", "dele", "epsv", "list", "mkd", "mlsd", "mlst", "pass", "pasv",
                "pbsz", "prot", "pwd", "quit", "rest", "retr", "rmd", "rnfr", "rnto", "stor", "syst", "type", "user"}
+OvertakenVerbs == {"mkd", "rmd", "dele", "rnto", "rnfr", "mlst", "cwd", "cdup"}
+OvertakingVerbs == {"cwd", "cdup", "pwd", "type", "syst"}
 DoneCode(v) == IF v = "mlsd" THEN "200" ELSE "226"
 
 Init ==
@@ -125,12 +128,16 @@ SendLine(s, t, v, a, x, n) ==
   /\ \/ /\ r.h = NoH
         /\ \E rst \in (IF v \in KnownVerbs \ TransferVerbs THEN {0}
                        ELSE IF v \in TransferVerbs THEN {r.rest} ELSE {0, r.rest}) :
-             Upd(s, [r EXCEPT !.h = [NoH EXCEPT !.v = v, !.a = a, !.x = x, !.n = IF v \in TransferVerbs THEN r.rest ELSE n],
+             Upd(s, [r EXCEPT !.h = [NoH EXCEPT !.v = v, !.a = a, !.x = x, !.n = IF v \in TransferVerbs THEN r.rest ELSE n, !.c0 = r.cwd],
                               !.line = t, !.rest = rst,
                               !.ab = IF r.ab = "done" THEN "" ELSE @])
      \/ \* ABOR arriving while the handler of the previous command is still running
         /\ r.h # NoH /\ r.h.v # "abor" /\ v = "abor" /\ r.ab = ""
         /\ Upd(s, [r EXCEPT !.ab = "pend", !.line = t, !.rest = 0])
+     \/ \* pipelining: a command that touches neither the tree nor the login arrives while the handler of the previous
+        \* (non-transfer) command is still suspended in the backend; it is handled at once and may overtake it
+        /\ r.h # NoH /\ r.h.v \in OvertakenVerbs /\ r.h2 = NoH /\ r.ab = "" /\ v \in OvertakingVerbs
+        /\ Upd(s, [r EXCEPT !.h2 = [NoH EXCEPT !.v = v, !.a = a, !.x = x, !.n = n, !.c0 = r.cwd], !.line = t, !.rest = 0])
   /\ UNCHANGED <<tree, uused, used, pool, table, srv>>
 
 \* A line the server cannot decode or that exceeds the stream limit: the session ends (nothing else may happen)
@@ -193,6 +200,10 @@ MutVerbs  == {"mkd", "rmd", "dele", "rnto"}
 
 VPath(r) == IF r.h.v = "cdup" THEN Parent(r.cwd) ELSE Resolve(r.cwd, r.h.a)
 RPath(r) == Real(r.user, VPath(r))
+\* the path conditions (exists / is_dir / is_file) are evaluated when the command is read, on the working directory of that
+\* instant; permission and the action itself use the working directory in force when the handler gets there (the same one
+\* unless a pipelined CWD / CDUP overtook the handler in between)
+CPath(r) == Real(r.user, IF r.h.v = "cdup" THEN Parent(r.h.c0) ELSE Resolve(r.h.c0, r.h.a))
 
 \* set of admissible verdicts of the guards of a path verb: "" = passes
 Verdicts(r) ==
@@ -200,10 +211,10 @@ Verdicts(r) ==
   IF ~r.logged THEN {"503"}
   ELSE IF v \in NeedLsn /\ r.lsn = 0 THEN {"503"}
   ELSE IF v = "rnto" /\ r.rnfr = NoPath THEN {"503"}
-  ELSE IF v \in MustExist /\ ~ExistsT(tree, RPath(r)) THEN {"550"}
-  ELSE IF v \in MustNot /\ ExistsT(tree, RPath(r)) THEN {"550"}
-  ELSE IF v \in MustDir /\ ~IsDirT(tree, RPath(r)) THEN {"550"}
-  ELSE IF v \in MustFile /\ ~IsFileT(tree, RPath(r)) THEN {"550"}
+  ELSE IF v \in MustExist /\ ~ExistsT(tree, CPath(r)) THEN {"550"}
+  ELSE IF v \in MustNot /\ ExistsT(tree, CPath(r)) THEN {"550"}
+  ELSE IF v \in MustDir /\ ~IsDirT(tree, CPath(r)) THEN {"550"}
+  ELSE IF v \in MustFile /\ ~IsFileT(tree, CPath(r)) THEN {"550"}
   ELSE LET ps == PermSet(r.user, VPath(r), IF v \in ReadVerbs THEN "r" ELSE "w") IN
        {IF ok THEN (IF v \in {"stor", "appe"} /\ ~IsDirT(tree, Real(r.user, Parent(VPath(r)))) THEN "550" ELSE "")
               ELSE "550" : ok \in ps}
@@ -346,6 +357,12 @@ ReplyWith(s, t, code, r) ==
         /\ \E o \in Outcomes(r, t) :
              /\ Head(o.rep) = code
              /\ Upd(s, [o.r EXCEPT !.outq = Tail(o.rep)]) /\ uused' = o.uu /\ used' = o.us
+        /\ UNCHANGED pool
+     \/ \* a pipelined command that overtook a suspended handler is answered; the suspended handler stays
+        /\ r.outq = <<>> /\ r.h2 # NoH
+        /\ \E o \in Outcomes([r EXCEPT !.h = r.h2, !.h2 = NoH], t) :
+             /\ Head(o.rep) = code
+             /\ Upd(s, [o.r EXCEPT !.h = r.h, !.outq = Tail(o.rep)]) /\ uused' = o.uu /\ used' = o.us
         /\ UNCHANGED pool
      \/ \* an ABOR that overtook a running handler is answered
         /\ r.outq = <<>> /\ r.ab = "pend" /\ code = (IF r.logged THEN "226" ELSE "503")
@@ -561,6 +578,7 @@ Settled(s, gated) ==
   /\ (r.ab # "pend" \/ s \in gated)
   /\ r.xd = 0
   /\ (r.h.v # "" => s \in gated \/ r.h.pc = "try")
+  /\ (r.h2 = NoH \/ s \in gated)
   /\ (r.w.v # "" => \/ r.w.st = "wait"
                     \/ r.w.st = "dying" /\ Released(r)
                     \/ r.w.st = "run" /\ ~WCanFinish(r) /\ (s \in gated \/ ~Moved(r) \/ ~Released(r))
